@@ -12,6 +12,8 @@ A kernel spec is a dict:
   c_header  C signature text for the generated function
   rules     ordered list of (regex, replacement, expected_count); the count is
             an int (exact), a (min,max) tuple, or None (any number, incl. 0)
+  init_list True for a constructor: its member-initialiser list is turned into
+            assignments self->member = expr; in front of the body
   pre/post  optional literal C text put at the start/end of the generated body
   loops     expected number of loops (checked); every loop header gets the
             macro LC_<name>_<ordinal> appended, which the contract header
@@ -259,6 +261,21 @@ def extract_kernel(repo, spec):
     src = strip_comments(raw)
     start, bo, bc = find_function(src, spec["func"], spec.get("nth", 0))
     body = src[bo + 1 : bc]
+    if spec.get("init_list"):
+        # constructor: the member-initialiser list ": m1(e1), m2(e2) ..." between the parameter list and '{' becomes the
+        # assignments "self->m1 = e1; ..." in front of the body (order as written; only 'member(expr)' items accepted)
+        mh = re.compile(spec["func"]).search(src, start)
+        head = src[mh.end() : bo].strip()
+        if not head.startswith(":"):
+            raise ExtractionError("kernel %s: constructor without member-initialiser list" % spec["name"])
+        items = [it.strip() for it in re.split(r",\s*(?=\w+\()", head[1:].strip()) if it.strip()]
+        stm = []
+        for it in items:
+            mi = re.match(r"^(\w+)\(([^()]*)\)$", it)
+            if not mi:
+                raise ExtractionError("kernel %s: initialiser '%s' is not of the form member(expr)" % (spec["name"], it))
+            stm.append("self->%s = %s;" % (mi.group(1), mi.group(2)))
+        body = "\n".join(stm) + "\n" + body
     line0 = src.count("\n", 0, start) + 1
     line1 = src.count("\n", 0, bc) + 1
     region = src[start : bc + 1]
